@@ -86,8 +86,11 @@ def gen_inverse(rng, tier, flavour):
 
 
 def gen_pr(rng, tier, flavour):
+    """values k/64 scaled by a power of two (exact): precipitation fluxes in kg m-2 s-1 are 1e-8 .. 1e-3, in mm/day 0.01 .. 100;
+    the property quantifies over ALL pr > 0, so the tiny magnitudes are part of it"""
     shape = gen_shape(rng, tier)
     pairs = []
+    unit = 2.0 ** -rng.choice([0, 0, 10, 17, 20, 24, 30])
 
     def one():
         if flavour == "wellformed":
@@ -104,7 +107,7 @@ def gen_pr(rng, tier, flavour):
 
     fill(shape, one)
     arr = np.array(pairs, dtype=float).reshape(shape + (2,)) if pairs else np.zeros(shape + (2,))
-    return arr[..., 0].copy(), arr[..., 1].copy()
+    return arr[..., 0].copy() * unit, arr[..., 1].copy() * unit
 
 
 def as_input(a, rng):
@@ -187,7 +190,7 @@ def oracle_pr(pr, prsn):
         q = u.get_prsnratio(pr, prsn)
         s2 = u.get_prsn(pr, q)
         p2 = u.get_pr(prsn, q)
-    tol = REL * mag(pr, prsn)
+    tol = REL * np.abs(np.asarray(pr, dtype=float))  # element-wise relative: the fluxes can be tiny (kg m-2 s-1)
     problems = []
     if np.shape(q) != np.shape(pr) or np.shape(s2) != np.shape(pr) or np.shape(p2) != np.shape(pr):
         return [("pr conversions change the shape", {})]
@@ -294,8 +297,9 @@ def run_sequence(init, script):
     """init: dict of lists (tas, tasmin, tasmax, pr, prsn). returns problems [(description, step index)]"""
     u = U()
     v = {k: np.array(init[k], dtype=float) for k in ("tas", "tasmin", "tasmax", "pr", "prsn")}
-    v["r"], v["s"] = v["tasmax"] - v["tasmin"], (v["tas"] - v["tasmin"]) / (v["tasmax"] - v["tasmin"])
-    v["q"] = v["prsn"] / v["pr"]
+    # np.array(..): 0-d results of arithmetic are numpy scalars, which cannot be modified in place
+    v["r"], v["s"] = np.array(v["tasmax"] - v["tasmin"]), np.array((v["tas"] - v["tasmin"]) / (v["tasmax"] - v["tasmin"]))
+    v["q"] = np.array(v["prsn"] / v["pr"])
     ids = {k: id(a) for k, a in v.items()}
     problems = []
     for n, step in enumerate(script):
